@@ -24,6 +24,11 @@ use crate::world::*;
 #[derive(Debug, Clone, Serialize, Deserialize, PartialEq, Eq, Hash)]
 pub struct Case {
     pub hist: HistSpec,
+    /// (position selector, how many blocks early): one block of the history is delivered before its
+    /// 1..3 direct ancestors (it arrives above the tip, is stored, and is connected when they and
+    /// its child have arrived). None: every block is delivered after its parent.
+    #[serde(default)]
+    pub early: Option<(u16, u8)>,
 }
 
 #[derive(Debug, Clone, Copy, PartialEq, Eq, Hash, Serialize)]
@@ -69,6 +74,7 @@ pub struct Info {
     pub max_height: u64,
     pub invalid_side_blocks_stored: usize,
     pub second_restarts: usize,
+    pub early_deliveries: usize,
     /// second restart ended on another branch (finding F41's territory; not judged here)
     pub second_restart_other_branch: usize,
 }
@@ -249,8 +255,53 @@ pub fn run_case(case: &Case, full: bool) -> (Vec<(String, String)>, Info) {
     let mut d = Deliverer::new(Node::new(case.hist.ncfg, 0), 10_000);
     // (journal length after the delivery, tip after the delivery, was this delivery a reorganisation)
     let mut marks: Vec<(usize, SaitoHash, bool, bool)> = vec![];
-    for b in &built.blocks {
-        if is_rootless(&d.node, &table, b) {
+    // delivery order: as built, except for one block that may come early
+    let n = built.blocks.len();
+    let mut order: Vec<usize> = (0..n).collect();
+    let mut early_plan: Option<(usize, usize)> = None; // (index of the early block, k)
+    if let Some((sel, k)) = case.early {
+        let k = 1 + (k % 3) as usize;
+        if n > k + 3 {
+            // all positions whose k ancestors, the block itself and its child form one line of valid blocks
+            let cands: Vec<usize> = (k + 1..=n - 2).filter(|&i| (i - k..=i + 1).all(|j| built.blocks[j].previous_block_hash == built.blocks[j - 1].hash && built.invalid[j].is_none())).collect();
+            if !cands.is_empty() {
+                early_plan = Some((cands[(sel as usize * cands.len()) >> 16], k));
+            }
+        }
+    }
+    if let Some((i, k)) = early_plan {
+        order = (0..i - k).chain(std::iter::once(i)).chain(i - k..i).chain(i + 1..n).collect();
+    }
+    for (pos, &bi) in order.iter().enumerate() {
+        let b = &built.blocks[bi];
+        if let Some((i, k)) = early_plan {
+            if bi == i && pos == i - k {
+                // only if the early block really lands above the tip (its grand-parent line is the tip)
+                if d.node.tip().1 != built.blocks[i - k - 1].hash {
+                    // fall back to the built order from here on
+                    early_plan = None;
+                    for &bj in (i - k..n).collect::<Vec<_>>().iter() {
+                        let b = &built.blocks[bj];
+                        if is_rootless(&d.node, &table, b) {
+                            continue;
+                        }
+                        let jl0 = d.node.io.st.journal.lock().unwrap().len();
+                        let outs = d.deliver(b);
+                        if d.dead {
+                            return (v, info);
+                        }
+                        let reorg = outs.iter().any(|o| o.tip_after.1 != o.tip_before.1 && o.tip_before.1 != [0; 32] && table.by_hash.get(&o.tip_after.1).map(|nb| nb.previous_block_hash != o.tip_before.1).unwrap_or(false));
+                        let j = d.node.io.journal();
+                        let pruned = j[jl0..].iter().any(|op| matches!(op, JournalOp::Remove(_)));
+                        marks.push((j.len(), d.node.tip().1, reorg, pruned));
+                        info.max_height = info.max_height.max(d.node.tip().0);
+                    }
+                    break;
+                }
+                info.early_deliveries += 1;
+            }
+        }
+        if early_plan.is_none() && is_rootless(&d.node, &table, b) {
             continue;
         }
         let jl0 = d.node.io.st.journal.lock().unwrap().len();
@@ -462,6 +513,7 @@ fn eval(c: &mut Ctx, case: &Case, counting: bool, full: bool) -> Vec<(String, St
             (info.extended_after_reboot, "extended_chain_after_reboot"),
             (info.invalid_side_blocks_stored, "invalid_side_block_on_disk_at_shutdown"),
             (info.second_restarts, "second_clean_restart_after_recovery_and_two_more_blocks"),
+            (info.early_deliveries, "history_with_a_block_delivered_before_its_ancestors"),
             (info.second_restart_other_branch, "second_restart_on_another_branch(F41 territory, not judged)"),
         ] {
             if n > 0 {
@@ -476,6 +528,13 @@ fn eval(c: &mut Ctx, case: &Case, counting: bool, full: bool) -> Vec<(String, St
 }
 
 pub fn arb_case(max_blocks: usize) -> impl Strategy<Value = Case> {
+    (arb_case_in_order(max_blocks), prop_oneof![1 => Just(None), 1 => (any::<u16>(), 0u8..3).prop_map(Some)]).prop_map(|(mut c, early)| {
+        c.early = early;
+        c
+    })
+}
+
+fn arb_case_in_order(max_blocks: usize) -> impl Strategy<Value = Case> {
     (arb_forked_hist(max_blocks), prop_oneof![Just(4u64), Just(5u64), Just(6u64)]).prop_map(|(mut hist, gp)| {
         hist.ncfg.gp = gp;
         hist.ncfg.loading_completed = false; // what a real node runs with
@@ -528,7 +587,7 @@ pub fn arb_case(max_blocks: usize) -> impl Strategy<Value = Case> {
                 r.back = Some(1);
             }
         }
-        Case { hist }
+        Case { hist, early: None }
     })
 }
 
